@@ -153,6 +153,11 @@ def identical(it, a, b):
         if smt.is_bool_term(sym) and isinstance(con, bool):
             return sym if con else z3.Not(sym)
         return False
+    if isinstance(a, Packed) and isinstance(b, Packed):
+        # elements of a symbolic sequence: the same element term denotes the same object
+        if a.term.eq(b.term):
+            return True
+        return z3.simplify(a.term == b.term)
     if isinstance(a, (Obj, ListVal, DictVal, Stream, ClassVal, FuncVal, ModuleVal)):
         return a is b
     if isinstance(a, int) and isinstance(b, int):
